@@ -222,9 +222,9 @@ def base_programs(ctx):
     return progs
 
 
-def run_shard(tmp, k, items, limit, configs):
+def run_shard(tmp, k, items, limit, configs, want_bytecode=False):
     f = tmp / f"shard{k}.json"
-    f.write_text(json.dumps({"items": items, "limit": limit, "configs": configs}))
+    f.write_text(json.dumps({"items": items, "limit": limit, "configs": configs, "want_bytecode": want_bytecode}))
     env = dict(os.environ)
     env["PYTHONPATH"] = str(REPO)
     env["PYTHONDONTWRITEBYTECODE"] = "1"
@@ -411,7 +411,91 @@ def part_env_matrix(ctx, tmp):
     return classify_rows(ctx, rows, items, "env")
 
 
-def classify_rows(ctx, rows, items, part):
+MATRIX_CONFIGS = [[False, "none"], [False, "gas"], [False, "codesize"], [True, "none"], [True, "O2"], [True, "O3"], [True, "Os"]]
+
+
+def part_builtin_matrix(ctx, tmp):
+    """builtin x argument-shape matrix (tools/vlib/c20_builtin_matrix.py): outcome classification under 3 legacy and 4 venom
+    levels, then execution of every fully accepted program on pyrevm under legacy-gas and venom-O2 with two argument sets."""
+    from eth_abi import encode
+    from eth_utils import keccak
+    from vyper.builtins.functions import DISPATCH_TABLE, STMT_DISPATCH_TABLE
+
+    from vlib import c20_builtin_matrix as M
+    from vlib.evm import Chain, log_tuple
+    missing = (set(DISPATCH_TABLE) | set(STMT_DISPATCH_TABLE)) - M.covered_builtins()
+    if missing:
+        ctx.violation("correspondence-broken", "builtins without a template in c20_builtin_matrix.py", {"builtins": sorted(missing)})
+    rnd = ctx.rng("matrix")
+    built = []
+    for tpl, h, sh in M.all_cases():
+        b = M.build(tpl, h, sh)
+        if b is not None:
+            built.append((tpl, h, sh, b))
+    if ctx.tier == "quick":
+        # seeded sample, stratified so that every builtin and every shape occurs
+        by_b, by_s = collections.defaultdict(list), collections.defaultdict(list)
+        for c in built:
+            by_b[c[0]["builtin"]].append(c)
+            by_s[c[2]].append(c)
+        pick = [rnd.choice(v) for _, v in sorted(by_b.items())] + [rnd.choice(v) for _, v in sorted(by_s.items())]
+        pick += rnd.sample(built, 300 - len(pick))
+        built = pick
+    items = []
+    for i, (tpl, h, sh, b) in enumerate(built):
+        items.append({"id": f"bm{i}", "src": b["src"], "how": f"builtin-matrix:{tpl['builtin']}:{sh}", "base": b["call"][:60],
+                      "builtin": tpl["builtin"], "shape": sh, "params": b["params"], "payable": b["payable"]})
+    nsh = 3
+    shards = [items[k::nsh] for k in range(nsh)]
+    with ThreadPoolExecutor(max_workers=nsh) as ex:
+        rows = [r for rs in ex.map(lambda k: run_shard(tmp, 30 + k, [{"id": it["id"], "src": it["src"]} for it in shards[k]], 8,
+                                                       MATRIX_CONFIGS, want_bytecode=True), range(nsh)) for r in rs]
+    stats, n = classify_rows(ctx, rows, items, "valid", tag="matrix")
+    # ---- execution: legacy-gas vs venom-O2 (and legacy-none vs venom-O3 in the thorough tier)
+    by_id = {it["id"]: it for it in items}
+    pairs = [("legacy-gas", "venom-O2")] + ([("legacy-none", "venom-O3"), ("legacy-codesize", "venom-Os")] if ctx.tier == "thorough" else [])
+    n_exec = n_prog = 0
+    reported = set()
+    for r in rows:
+        runs = r["runs"]
+        if r["front"]["outcome"] != "output" or any(o["outcome"] != "output" for o in runs.values()) or len(runs) < len(MATRIX_CONFIGS):
+            continue
+        it = by_id[r["id"]]
+        n_prog += 1
+        sel = keccak(("f(" + ",".join(M.calldata(it["params"], 0)[0]) + ")").encode())[:4]
+        for a, b2 in pairs:
+            res = []
+            for cfgname in (a, b2):
+                ch = Chain("prague")
+                addr = ch.deploy(bytes.fromhex(runs[cfgname]["bytecode"][2:]))
+                outs = []
+                for which in (0, 1):
+                    if addr is None:
+                        outs.append(("deploy-failed",))
+                        continue
+                    types, vals = M.calldata(it["params"], which)
+                    rr = ch.call(addr, sel + encode(types, vals), value=(3 if it["payable"] and which == 0 else 0))
+                    outs.append((rr.ok, rr.out.hex() if rr.ok else "", tuple(log_tuple(l) for l in rr.logs) if rr.ok else ()))
+                    n_exec += 1
+                res.append(outs)
+            if res[0] != res[1]:
+                key = f"C20M:disagree:{it['builtin']}:{it['shape']}"
+                if key not in reported and len(reported) < 12:
+                    reported.add(key)
+                    which = 0 if res[0][0] != res[1][0] else 1
+                    types, vals = M.calldata(it["params"], which)
+                    ctx.violation("failing-input", f"builtin matrix: {a} and {b2} behave differently on {it['base']}",
+                                  {"source": it["src"], "calldata_types": types, "calldata_values": [str(v) for v in vals],
+                                   "value": 3 if it["payable"] and which == 0 else 0, a: str(res[0][which])[:300], b2: str(res[1][which])[:300]},
+                                  key=key)
+    ctx.corr["matrix_programs"] = n
+    ctx.corr["matrix_programs_executed"] = n_prog
+    ctx.corr["matrix_calls"] = n_exec
+    ctx.corr["matrix_behaviour_disagreements"] = sorted(reported)
+    return stats, n, n_exec
+
+
+def classify_rows(ctx, rows, items, part, tag=None):
     by_id = {it["id"]: it for it in items}
     stats = collections.Counter()
     internal = {}
@@ -458,6 +542,7 @@ def classify_rows(ctx, rows, items, part):
                        "config": cfgname, "outcome": o, "mutation": it["how"], "base_program": it["base"],
                        "replay": "compile_code(source, settings=Settings(experimental_codegen=<venom>, optimize=<level>, enable_decimals=True))"},
                       key=key)
+    part = tag or part
     ctx.corr[part + "_distinct_internal"] = sorted(internal)
     ctx.corr[part] = {k: int(v) for k, v in stats.items() if not k.startswith(("diag:", "noloc:"))}
     ctx.corr[part + "_diagnostics_without_location"] = {k[6:]: int(v) for k, v in stats.items() if k.startswith("noloc:")}
@@ -595,6 +680,7 @@ def run(ctx):
         stats, n_items = part_outcomes(ctx, tmp)
         vstats, n_valid = part_valid(ctx, tmp)
         estats, n_env = part_env_matrix(ctx, tmp)
+        mstats, n_matrix, n_matrix_exec = part_builtin_matrix(ctx, tmp)
         r_arity = probe_arity(ctx)
         from vlib import c20_pow
         n_pow = c20_pow.run(ctx)
@@ -633,7 +719,7 @@ def run(ctx):
     if not b["ok"] and len(ctx.violations) + len(ctx.known_hits) == nv0:
         ctx.violation("theorem-broken", f"{b.get('failed_lemma')} in {b['file']}",
                       {"theorem": b.get("failed_lemma"), "file": b["file"], "coq_output": b["out"][-1500:]})
-    ctx.corr["evaluations"] = int(stats["compilations"]) + int(vstats["compilations"]) + int(estats["compilations"]) + n_dense + 4 + n_pow
+    ctx.corr["evaluations"] = int(stats["compilations"]) + int(vstats["compilations"]) + int(estats["compilations"]) + int(mstats["compilations"]) + n_matrix_exec + n_dense + 4 + n_pow
     ctx.corr["distinct_nontrivial"] = n_items + n_valid + n_dense + 4 + n_pow
     ctx.corr["rule"] = "distinct source texts (unchanged + mutated) each compiled by the front end and up to 4 (quick) / 8 back-end configs; dense id sets; 3 targeted probes"
     ctx.extra["explanation"] = (
